@@ -184,7 +184,8 @@ def answerFold (e : KExpr) : String :=
     | .ok c => "ok " ++ showKVal c.get0
     | .err => "err"
     | .panic => "panic"
-  "fold=" ++ fold ++ " ;; rt=" ++ rt ++ " ;; " ++ " ".intercalate tags.eraseDups
+  let ftags := if foldNullSubexprs e then ["fold:null-loses-type"] else []
+  "fold=" ++ fold ++ " ;; rt=" ++ rt ++ " ;; " ++ " ".intercalate (ftags ++ tags).eraseDups
 
 def answer (line : String) : String :=
   match Sexp.parse line with
